@@ -142,6 +142,27 @@ func (s *Sim) self() *Task {
 	return t
 }
 
+// SpinLimit is the number of loop iterations the library may perform between two scheduling points
+// (channel operation, lock, sleep, go statement, read or write of a simulated file or connection).
+// The library's own loops are per element of a stream or of a small window and reach such a point
+// every few iterations; when the limit is exceeded a goroutine is looping without ever blocking.
+// The counter is one cheap global: under the controller one task runs at a time, and every yield
+// of any task resets it, so only a loop that never yields can reach the limit.
+const SpinLimit = 1_000_000
+
+var loopTicks atomic.Int64
+
+// LoopTick is inserted by the instrumenter at the top of every for-loop body of the library.
+func LoopTick() {
+	if loopTicks.Add(1) <= SpinLimit {
+		return
+	}
+	loopTicks.Store(0)
+	if Self() != nil {
+		panic(fmt.Sprintf("busy loop: more than %d loop iterations without reaching a blocking operation (the goroutine never gives up and never blocks: a hang)", SpinLimit))
+	}
+}
+
 var freeCounts [2]atomic.Int64
 
 // TaskCount increments and returns a counter private to the calling task (slot 0 or 1). Only the
@@ -216,6 +237,7 @@ func GoKind(kind string, f func()) *Task {
 
 func (s *Sim) park(t *Task, site int, op string) {
 	s.mu.Lock()
+	loopTicks.Store(0)
 	t.state = Parked
 	t.Site = site
 	t.Op = op
